@@ -106,7 +106,7 @@ def leg_b(ctx, q):
         jobs += [("parser%d" % b, ["parser", 5, 2, b]) for b in range(3)]
         jobs += [("reqexh%d" % b, ["reqexh", 4, 1, b]) for b in range(3)]
         jobs += [("urlexh", ["urlexh", 5])]
-        jobs += [("rand%d" % i, ["rand", 800, 16384, 50], {"VERIF_SEED": str(ctx.seed * 10 + i)}) for i in range(3)]
+        jobs += [("rand%d" % i, ["rand", 600, 16384, 50], {"VERIF_SEED": str(ctx.seed * 10 + i)}) for i in range(3)]
     else:
         jobs = [("seeds", ["seeds"])]
         jobs += [("parser%d" % b, ["parser", 6, 2, b]) for b in range(3)]
